@@ -23,7 +23,10 @@ Q = sp.Function("Q")
 def _first(tr, d, args, kwargs, n):
     last = d.split(".")[-1]
     if last == "percentile":
-        return Q(sp.sympify(args[1]))
+        q = args[1]
+        if isinstance(q, (list, tuple, np.ndarray)):
+            return np.array([Q(sp.nsimplify(sp.sympify(x))) for x in np.asarray(q, dtype=object).reshape(-1)], dtype=object)   # one edge per requested percentile
+        return Q(sp.sympify(q))
     if last in ("min", "amin") and d.split(".")[0] in ("np", "numpy"):
         return sp.Symbol("MIN", real=True)
     if last in ("max", "amax") and d.split(".")[0] in ("np", "numpy"):
